@@ -9,10 +9,12 @@ package pipeline
 // scripted filter kinds, generators and observers.
 
 import (
+	stdcontext "context"
 	"fmt"
 	"io"
 	"sort"
 	"strings"
+	"time"
 
 	"github.com/megaease/easegress/pkg/context"
 	"github.com/megaease/easegress/pkg/filters"
@@ -69,6 +71,12 @@ type (
 		// spec. Inherit closes the previous generation, as the real lifecycle
 		// does. The observables do not depend on it.
 		Gen int `json:"gen"`
+		// Deadline: the std context carried by the inbound (marker) requests:
+		// "" none, "far" a deadline one hour ahead, "expired" a deadline one
+		// hour in the past, "near" a deadline 5 ms ahead while the first filter
+		// invocation sleeps 10 ms. The flow is a function of the flow spec and
+		// the filter results only, never of time: observables do not depend on it.
+		Deadline string `json:"deadline"`
 		Script []string `json:"script"` // result of the n-th filter invocation ("" beyond the end)
 	}
 
@@ -104,6 +112,7 @@ type (
 		script []string
 		n      int
 		calls  [][4]string
+		sleep  time.Duration // slept once, by the first invocation
 	}
 
 	vfC02FSpec struct {
@@ -116,7 +125,10 @@ type (
 	}
 
 	// vfC02Req is a marker request planted in one namespace of the context.
-	vfC02Req struct{ marker string }
+	vfC02Req struct {
+		marker string
+		std    stdcontext.Context
+	}
 )
 
 var vfC02Cur *vfC02State
@@ -135,6 +147,10 @@ func (f *vfC02Filter) Handle(ctx *context.Context) string {
 		r = st.script[st.n]
 	}
 	st.n++
+	if st.sleep > 0 {
+		time.Sleep(st.sleep)
+		st.sleep = 0
+	}
 	marker := "<none>"
 	if req, ok := ctx.GetInputRequest().(*vfC02Req); ok && req != nil {
 		marker = req.marker
@@ -316,7 +332,27 @@ func (r *vfC02Req) GetPayload() io.Reader                   { return strings.New
 func (r *vfC02Req) RawPayload() []byte                      { return nil }
 func (r *vfC02Req) PayloadSize() int64                      { return 0 }
 func (r *vfC02Req) ToBuilderRequest(name string) interface{} { return nil }
+func (r *vfC02Req) Context() stdcontext.Context {
+	if r.std == nil {
+		return stdcontext.Background()
+	}
+	return r.std
+}
 func (r *vfC02Req) Close()                                  {}
+
+// vfC02StdContext builds the std context of the inbound requests of a case.
+func vfC02StdContext(deadline string, st *vfC02State) (stdcontext.Context, func()) {
+	switch deadline {
+	case "far":
+		return stdcontext.WithDeadline(stdcontext.Background(), time.Now().Add(time.Hour))
+	case "expired":
+		return stdcontext.WithDeadline(stdcontext.Background(), time.Now().Add(-time.Hour))
+	case "near":
+		st.sleep = 10 * time.Millisecond
+		return stdcontext.WithDeadline(stdcontext.Background(), time.Now().Add(5*time.Millisecond))
+	}
+	return stdcontext.Background(), func() {}
+}
 
 // vfC02Build instantiates one pipeline the regular way (supervisor.NewSpec,
 // which validates, then Init) or, for raw cases, binds the flow with reload
@@ -428,8 +464,11 @@ func VfC02Run(in *VfC02In, gf VfC02GF) (obs VfC02Obs) {
 	}()
 
 	ctx := context.New(tracing.NoopSpan)
+	var reqs []*vfC02Req
 	for _, ns := range vfC02Namespaces(in) {
-		ctx.SetRequest(ns, &vfC02Req{marker: ns})
+		req := &vfC02Req{marker: ns}
+		reqs = append(reqs, req)
+		ctx.SetRequest(ns, req)
 	}
 
 	names := []string{"main", "before", "after"}
@@ -459,6 +498,11 @@ func VfC02Run(in *VfC02In, gf VfC02GF) (obs VfC02Obs) {
 		return
 	}
 
+	std, cancel := vfC02StdContext(in.Deadline, st)
+	defer cancel()
+	for _, req := range reqs {
+		req.std = std
+	}
 	switch in.Mode {
 	case "handle":
 		obs.Result, obs.HasRes = ps[0].Handle(ctx), true
@@ -496,6 +540,8 @@ type (
 		Results []string            `json:"results"`
 		Len     int                 `json:"len"`
 		Gen     int                 `json:"gen"` // generation that handles, see VfC02In.Gen
+		// Deadline of the inbound requests' std context: "", "far" or "expired" (see VfC02In.Deadline)
+		Deadline string `json:"deadline"`
 	}
 
 	// VfC02EnumRunObs is the outcome of one script.
@@ -561,10 +607,12 @@ func VfC02RunEnum(in *VfC02EnumIn) (obs VfC02EnumObs) {
 		st := &vfC02State{script: sc}
 		vfC02Cur = st
 		ctx := context.New(tracing.NoopSpan)
+		std, cancel := vfC02StdContext(in.Deadline, &vfC02State{})
 		for _, ns := range nss {
-			ctx.SetRequest(ns, &vfC02Req{marker: ns})
+			ctx.SetRequest(ns, &vfC02Req{marker: ns, std: std})
 		}
 		res := p.Handle(ctx)
+		cancel()
 		stats, tagOK := vfC02ParseTag(ctx.Tags())
 		run := VfC02EnumRunObs{Names: []string{}, Result: res}
 		if !tagOK || len(stats) != len(st.calls) {
